@@ -4,7 +4,8 @@
 // (NULL equal to NULL, numbers by value: 1 and 1.0 of the same REAL column, -0.0 and 0.0), order and content otherwise
 // unchanged; for aggregate queries the same on the printed table, with or without HAVING.
 // Grid: every sequence of up to 4 lines over a 5-line pool (TEXT / INT / NULL columns), up to 3 over a REAL pool with
-// 0.0 / -0.0 / 1 / 1.0 / 1.5; 6 plain statements, 5 aggregate statements (HAVING on a value that is not shown); recurrence after a long gap (500 / 700 lines); integers next to 2^53 and at the 64-bit ends.
+// 0.0 / -0.0 / 1 / 1.0 / 1.5; 6 plain statements, 5 aggregate statements (HAVING on a value that is not shown); recurrence after a gap of 500 / 700 / 200000 lines; integers next to 2^53 and at the 64-bit ends.
+// Also: the tables one engine shows while it is fed line by line (follow mode), for the DISTINCT aggregate statements.
 include!("verif_grid_common.rs");
 include!("verif_grid_qcommon.rs");
 
@@ -100,6 +101,15 @@ fn verif_grid() {
         for j in 0..700 { lines.push(format!("x={}.5", j)); }
         lines.push(second.to_string());
         g.case(&format!("real-long-gap-{}", i), move || { let l: Vec<&str> = lines.iter().map(|s| s.as_str()).collect(); check(rdef, "SELECT x FROM t", "SELECT DISTINCT x FROM t", &l) });
+    }
+    {
+        let mut lines: Vec<String> = vec!["k=first v=1".to_owned()];
+        for i in 0..200000 { lines.push(format!("k=g{} v={}", i, i)); }
+        lines.push("k=first v=1".to_owned());
+        g.case("very-long-gap", move || { let l: Vec<&str> = lines.iter().map(|s| s.as_str()).collect();
+            match q(T, "SELECT DISTINCT k, v FROM t", &l) { Outcome::Lines(d, _) => if d.len() == 200001 && d.iter().filter(|r| r.contains("\"first\"")).count() == 1 { Ok(()) }
+                else { Err(format!("a tuple recurs after 200000 other distinct tuples: SELECT DISTINCT printed {} rows (200001 distinct tuples), the recurring one {} times", d.len(), d.iter().filter(|r| r.contains("\"first\"")).count())) },
+                other => Err(format!("{:?}", other)) } });
     }
     // integers beyond 2^53 are different numbers
     {
